@@ -17,7 +17,8 @@ EXPLANATION = (
     "stores update(predict(state)); (R02.7) weights only on the too_far()==false side; (R02.8) the new-track weight "
     "handed to the assignment is the configured threshold in all four trackers. "
     "R02.6 includes the make_prediction sequencing clauses of C07 (the box kept for the next association is converted from the UPDATED state); (R02.11) the batch trackers release the batch monitor only after the scene result was sent, i.e. after the store updates of the batch, so the next batch computes distances against current tracks."
-    ' (R02.12) the quantity the IoU gate compares is the IoU of C08 (intersection = area of the clip of the two box polygons unless too_far, IoU = I / (A_l + A_r - I)) and the bounding-circle reach of the Mahalanobis mode compares the centre distance with the sum of both bounding radii.')
+    ' (R02.12) the quantity the IoU gate compares is the IoU of C08 (intersection = area of the clip of the two box polygons unless too_far, IoU = I / (A_l + A_r - I)) and the bounding-circle reach of the Mahalanobis mode compares the centre distance with the sum of both bounding radii.'
+    ' (R02.13) the squared Mahalanobis distance the gate compares is the textbook one (R07.11 normal form, no in-place rewrite of a residual component), computed by a filter built from the weights of the track it is measured for; (R02.14) the assignment is sized by len() of every shard read under a blocking lock and predict advances the scene epoch exactly once before candidates are compared; (R02.15) assignment weights are 64-bit fixed point.')
 NOT_DECIDED = ["optimality of the assignment (trusted: pathfinding::kuhn_munkres)", "IoU / Kalman numerics",
                "uniqueness margins / ties"]
 ASSUMPTIONS = ["pathfinding::kuhn_munkres returns a maximum-weight perfect matching of the rows",
